@@ -348,3 +348,35 @@ Fixpoint nondecreasing (prev : c4) (l : list out) : bool :=
 (* the orphan-prune deadline never passes in this history *)
 Definition no_prune (evs : list sev) : bool :=
   forallb (fun ev => match ev with EPrune true => false | _ => true end) evs.
+
+(* ------------------------------------------------------------------ *)
+(* plugins/auth/radius/accounting.go sendAccounting: how the four counters of an Accounting-Request go on the wire.
+   Octets: attribute 42/43 = uint32(x) and, only when uint32(x >> 32) > 0, attribute 52/53 (Gigawords) — for
+   every Acct-Status-Type.  Packets: attribute 47/48 = uint32(x); RADIUS has no packet gigawords. *)
+Definition W32 : N := 4294967296.
+Record wire := Wire {
+  w_status : N;                  (* 40: 1 Start, 2 Stop, 3 Interim-Update *)
+  w_in_oct : N;  w_out_oct : N;  (* 42, 43 *)
+  w_in_giga : option N;  w_out_giga : option N;   (* 52, 53: None = attribute absent *)
+  w_in_pkt : N;  w_out_pkt : N   (* 47, 48 *)
+}.
+Definition giga_attr (x : N) : option N :=
+  let g := (x / W32) mod W32 in if N.ltb 0 g then Some g else None.
+Definition encode_wire (status : N) (c : c4) : wire :=
+  Wire status (rxb c mod W32) (txb c mod W32) (giga_attr (rxb c)) (giga_attr (txb c))
+       (rxp c mod W32) (txp c mod W32).
+(* what an accounting server reconstructs (RFC 2869): Gigawords * 2^32 + Octets, absent Gigawords = 0 *)
+Definition giga_val (g : option N) : N := match g with Some x => x | None => 0 end.
+Definition decode_wire (w : wire) : c4 :=
+  C4 (giga_val (w_in_giga w) * W32 + w_in_oct w) (giga_val (w_out_giga w) * W32 + w_out_oct w)
+     (w_in_pkt w) (w_out_pkt w).
+
+Definition status_of (o : out) : N := match o with Start => 1 | Stop _ => 2 | Interim _ _ => 3 end.
+Definition counters_of (o : out) : c4 := match o with Start => c4z | Stop c => c | Interim c _ => c end.
+(* the call as the accounting server sees it after the wire *)
+Definition through_wire (o : out) : out :=
+  let c := decode_wire (encode_wire (status_of o) (counters_of o)) in
+  match o with Start => Start | Stop _ => Stop c | Interim _ ok => Interim c ok end.
+(* octets are u64 by type; packet counters above 2^32 cannot be represented in RADIUS *)
+Definition wire_range (c : c4) : bool :=
+  N.ltb (rxb c) W && N.ltb (txb c) W && N.ltb (rxp c) W32 && N.ltb (txp c) W32.
